@@ -249,6 +249,12 @@ def _apply_op(h, op, root):
         h["c"] = c
         h["promoted"] = h.get("promoted") or promoted
         return ("P", promoted)
+    if op == "Pn":
+        # the same promotion without loading the job status (deserialize_jobs=False, the API's default)
+        c, promoted = Cluster.deserialize(root, try_promote_to_submitter=True, deserialize_jobs=False)
+        h["c"] = c
+        h["promoted"] = h.get("promoted") or promoted
+        return ("P", promoted)
     if op == "p":
         r = c.promote_to_submitter()
         h["promoted"] = h.get("promoted") or r
@@ -373,7 +379,7 @@ class C10(PropOracle):
             return
         op, r, exc = d["op"], d["result"], d["exc"]
         self.results[(vp.name, d["i"])] = (r, exc)
-        kind = op[:2] if op[:2] in ("us", "uc") else op
+        kind = op[:2] if op[:2] in ("us", "uc") else ("P" if op == "Pn" else op)
         if exc == "Timeout":
             return
         if not cur.get("acquired"):
